@@ -518,7 +518,13 @@ def parent_main(pid: str, tier: str) -> int:
         'wall_s': round(wall, 2),
         'violations': len(seen_buckets),
     }
-    with open(os.path.join(VERIF_DIR, 'evidence', f'{pid}.json'), 'w') as f:
+    # evidence under /verif/evidence describes runs against /repo itself; sensitivity runs against another tree
+    # (VERIF_REPO=<scratch copy>) leave it alone
+    if env.REPO == '/repo':
+        ev_path = os.path.join(VERIF_DIR, 'evidence', f'{pid}.json')
+    else:
+        ev_path = os.path.join(VERIF_DIR, '.scratch', f'evidence-{pid}-other-tree.json')
+    with open(ev_path, 'w') as f:
         json.dump(evidence, f, indent=1, default=str)
 
     for ln in lines:
